@@ -140,7 +140,7 @@ let ty_of (name : string) (c : curve) (sm : bool) : ty =
   | "feldmanvv" | "pedersenvv" -> TFeldmanVV c | "basepublic" -> TBasePublic c | "baseshard" | "dkls23shard" | "schnorrshard" -> TBaseShard (c, sm)
   | "ecdsasig" -> TEcdsaSig c | "dkls23partialsig" -> TDklsPartial c
   | "pedersenshare" -> TPedShare c | "pedersenlifted" -> TPedLifted c | "matrix" -> TMatrix c | "sqmatrix" -> TSqMatrix c | "mvmatrix" -> TMvMatrix c
-  | "nat" -> TNat | "int" -> TInt | "natplus" -> TNatPlus
+  | "nat" -> TNat | "int" -> TInt | "natplus" -> TNatPlus | "uint" -> TUint
   | "scalar" -> TScalar c | "point" -> TPoint c
   | _ -> shallow_ty name
 
